@@ -8,6 +8,8 @@ model term and T, the number of noise blocks, or the exception class are compare
 (exact with power-of-4 variances and dyadic buns; 1e-8 where conjugate gradient is involved).
 Direct oracle (independent of Coq): T T^H against the dense operator (forward) / T T^H C = 1 (inverse),
 zero mean, linearity in the noise, and the refusal rule of the property statement."""
+import contextlib
+import io
 import json
 import os
 import re
@@ -534,6 +536,10 @@ class C13(C.Check):
         self.cases = []
 
     def run_case(self, ift, c):
+        with contextlib.redirect_stdout(io.StringIO()):      # MatrixProductOperator.apply prints a debug line
+            return self._run_case(ift, c)
+
+    def _run_case(self, ift, c):
         o = {"case": c}
         try:
             op = build(ift, c["spec"], c["n"])
@@ -550,6 +556,10 @@ class C13(C.Check):
         return o
 
     def coq_case(self, ift, o):
+        with contextlib.redirect_stdout(io.StringIO()):
+            return self._coq_case(ift, o)
+
+    def _coq_case(self, ift, o):
         c = o["case"]
         if "build_error" in o:
             return None
@@ -581,6 +591,10 @@ class C13(C.Check):
                                                          N, len(sizes), cl(cols))
 
     def direct(self, ift, o):
+        with contextlib.redirect_stdout(io.StringIO()):
+            return self._direct(ift, o)
+
+    def _direct(self, ift, o):
         c = o["case"]
         if "build_error" in o:
             return ("construct", "constructing the operator raised " + o["build_error"])
@@ -716,7 +730,8 @@ class C13(C.Check):
         op = build(ift, ["sandwich", ["matrix", [[1.0, 2.0], [0.0, 1.0]]], ["diag", [4.0, 0.25], None, "f"], None], 2)
         nrandom.push_sseq_from_seed(int(ctx.seed) + 5)
         try:
-            S = np.array([flat(ift, op.draw_sample()) for _ in range(20000)])
+            with contextlib.redirect_stdout(io.StringIO()):
+                S = np.array([flat(ift, op.draw_sample()) for _ in range(20000)])
         finally:
             nrandom.pop_sseq()
         emp = S.T @ S / len(S)
